@@ -183,7 +183,7 @@ fn check_case(c: &Case, acc: &mut Acc) -> Verdict {
 fn run(args: &Args, rep: &mut Report) {
     let tier = args.tier;
     rep.assume("a terminal has one underline style at a time: 4, 21 and 4:n replace each other (kitty/xterm); the reference interpreter and, since the F18 repair, the extractor agree on that");
-    rep.assume("codes outside the property's list (blink, 22-29, 59, colour values > 255, 38:2:cs:r:g:b, truncated extended colours) are not generated");
+    rep.assume("codes outside the property's list (blink, 22-29, 59, colour values > 255, truncated extended colours, more than 32 parameter values) are not generated");
 
     // exhaustive: 1..3 groups
     let g = REP_GROUPS.len();
@@ -260,6 +260,32 @@ fn run(args: &Args, rep: &mut Report) {
         false,
         "text + G-SGR only, 0..10 items (dense in attribute interactions)",
         prop_par("sgr-only-streams", args.seed, tier.pick(40_000, 1_500_000), mk(cfg), check_case, case_json),
+    );
+    let cfg = SgrStreamCfg { max_items: 6, others: true, c0: true, xml_text: false, single_group: false };
+    rep.add(
+        "huge-streams",
+        false,
+        "text + G-SGR + non-SGR sequences (0..6 items) with one printable run of 64..200 KiB, whole, cut inside sequences, or at a few generated positions",
+        prop_par(
+            "huge-streams",
+            args.seed,
+            tier.pick(80, 4_000),
+            move || {
+                (gen::sgr_stream(cfg), gen::huge_text(false), any::<u16>(), prop_oneof![Just(0u8), Just(3u8), Just(5u8)], proptest::collection::vec(any::<u16>(), 1..5)).prop_map(|((mut items, removed), big, frac, mode, fracs)| {
+                    gen::insert_huge(&mut items, big, frac);
+                    Case { items, removed, mode, fracs }
+                })
+            },
+            |c, acc| {
+                let v = check_case(c, acc);
+                // every case has a run beyond 64 KiB
+                if v.result.is_ok() { Verdict::ok(Some(digest(&gen::render(&c.items)) ^ rt::mix(c.mode as u64))) } else { v }
+            },
+            |c| {
+                let bytes = gen::render(&c.items);
+                json!({"hex": rt::hex(&bytes), "length": bytes.len(), "cuts": cuts_for(&bytes, c.mode, &c.fracs)})
+            },
+        ),
     );
     if args.tier == vcore::rt::Tier::Thorough {
         checks::fuzzrun::campaign(rep, args, "sgr", 300000, checks::oracle::fuzz_sgr);
